@@ -186,5 +186,23 @@ func allProps() []*propInfo {
 				{ID: "C09.5", Doc: "[dom] no error after commit in unary handlers", Run: ruleC09_5},
 			},
 		},
+		{
+			ID: "C10",
+			Explanation: "Static, schedule-independent necessary conditions of 'no lost wake-up': " +
+				"C10.1 in the pull loop and in the streamer's sender and refresh goroutines, a PublishAwaiter registration precedes every delivery query on every path from the function entry and from every wake edge of the (single-use) notifier case of the blocking select; C10.2 the select waits on a channel that only ever holds registration results; " +
+				"C10.3 the broadcast loops of WakePublishListeners, wakeModifyListeners, WakeAllInternal and of the commit hooks have no exit other than their range condition; " +
+				"C10.4 every writer that can make a message deliverable (create delivery, zero/negative modify-deadline, seeks, ack, dead-letter, prune-expired) notifies the affected subscription on every successful path, skipping only when the mutation's own result is empty; " +
+				"C10.5 = C09.3 (wake after the commit, so the re-query sees the change); C10.6 the waiter/hook maps are accessed only with nmu held (K3 lockset); C10.7 each closed waiter channel is removed from its set under the same lock. " +
+				"NOT decided: latency ('promptly'), the PostgreSQL LISTEN/NOTIFY path, schedules as such.",
+			Assumptions: []string{k1Assumption, "Go channel close wakes every receiver; sync.Mutex semantics"},
+			Rules: []ruleFn{
+				{ID: "C10.1", Doc: "[dom] register before query in every epoch; waited channel is the registered one (C10.2)", Run: ruleC10_1_2},
+				{ID: "C10.3", Doc: "[K2] broadcasts reach every target", Run: ruleC10_3},
+				{ID: "C10.4", Doc: "[dom][who] committing writers notify", Run: ruleC10_4},
+				{ID: "C09.3", Doc: "[K4] (shared, = C10.5) wake-ups only after a successful commit", Run: ruleC09_3},
+				{ID: "C10.6", Doc: "[lock] notifier maps under nmu", Run: ruleC10_6},
+				{ID: "C10.7", Doc: "[dom] closed channels are removed", Run: ruleC10_7},
+			},
+		},
 	}
 }
